@@ -315,9 +315,12 @@ class StringifyMapper(Mapper):
                 enclosing_prec, PREC_COMPARISON)
 
     def map_logical_not(self, expr, enclosing_prec, *args, **kwargs):
+        # As an operand of a comparison or of arithmetic, "not ..." needs
+        # parentheses: Python reads "not a*b" as "not (a*b)" and rejects
+        # "c + not a".
         return self.parenthesize_if_needed(
                 "not " + self.rec(expr.child, PREC_UNARY, *args, **kwargs),
-                enclosing_prec, PREC_UNARY)
+                enclosing_prec, PREC_LOGICAL_AND)
 
     def map_logical_or(self, expr, enclosing_prec, *args, **kwargs):
         return self.parenthesize_if_needed(
